@@ -167,7 +167,7 @@ func runC09(c *Ctx) {
 			// gating: only the mode flag and the success of the removal may gate the delete
 			f := w.Facts(a.Fn)
 			extra := ""
-			for l := range f.At(a.Instr.Block()) {
+			for l := range f.Primary(a.Instr.Block()) {
 				if m.isLoadOfField(l.V, m.fNoUp) {
 					continue
 				}
